@@ -539,6 +539,8 @@ def _refined_base(draw, fl: Flags):
     if k == "IntRange":
         a = draw(st.integers(-3, 3))
         w = draw(st.integers(0, 2 if fl.finite_choice else 5))
+        if not fl.finite_choice and draw(st.integers(0, 5)) == 0:
+            w = draw(st.sampled_from([1024, 1025, 5000, 10**6, 10**12]))  # wider than any single gene / small draw
         return ["ann", ["int"], ["IntRange", a, a + w]]
     if k == "IntList":
         xs = draw(st.lists(st.integers(-5, 5), min_size=1, max_size=3, unique=True))
@@ -663,6 +665,11 @@ def _class_field(draw, fl: Flags, targets: list[str], abstracts: list[str]):
                 elem = ["union", [ref, other]]
             elif fl.tuples:
                 elem = ["tuple", [ref, other]]
+        if fl.nested_generics and fl.lists and draw(st.integers(0, 4)) == 0:
+            # a list of lists of programs: both levels size-refined (two bare levels would allow up to
+            # 10 x 10 subtrees per node, which no depth limit keeps affordable)
+            sized = fl.replace(bare_lists=False)
+            return draw(_list_of(sized, draw(_list_of(sized, elem))))
         return draw(_list_of(fl, elem))
     if k == "union":
         other = draw(
